@@ -402,7 +402,7 @@ func predicateSet(fn *ssa.Function) (byteSet, bool) {
 // ---------------------------------------------------------------------------
 
 var ansiRegexAlts = []string{
-	`\x1b[\\[()][0-9;:?]*[a-zA-Z@]`,
+	`\x1b[\[()][0-9;:?]*[a-zA-Z@]`, // the comment gives it as a Go interpreted string: "\x1b[\\[()]..." - the backslash escapes '[', it is not a member
 	`\x1b][0-9]+[;:][[:print:]]+(?:\x1b\\|\x07)`,
 	`\x1b.`,
 	`[\x0e\x0f]`,
@@ -434,7 +434,7 @@ func ccSets(re *syntax.Regexp, out *[]byteSet) {
 func c11scanner(c *Ctx, r *Report) {
 	l := c.L
 	r.rule("C11-R6", "E (byte-class tables of the scanner vs the documented regular expression; classes by constant folding of the SSA over the 256 byte values)", "P1",
-		"the byte classes the hand-written scanner branches on are those of the documented regular expression: CSI introducers [\\\\[()], parameters [0-9;:?] (continue), finals [a-zA-Z@] (accept), everything else rejects; OSC digits, separators [;:], printable range, terminators BEL and ESC backslash; `.` excludes exactly the newline; the main loop handles exactly 08 0e 0f 1b and every pre-filter loop lets all of them through",
+		"the byte classes the hand-written scanner branches on are those of the documented regular expression: CSI introducers [[()], parameters [0-9;:?] (continue), finals [a-zA-Z@] (accept), everything else rejects; OSC digits, separators [;:], printable range, terminators BEL and ESC backslash; `.` excludes exactly the newline; the main loop handles exactly 08 0e 0f 1b and every pre-filter loop lets all of them through",
 		"a class of sequences is no longer stripped (stays in the text and is matched/printed) or ordinary text is swallowed")
 	var spec [][]byteSet
 	for _, alt := range ansiRegexAlts {
